@@ -60,7 +60,11 @@ func modelValues(o *Obligation, rs *ReplaySpec) (map[string]string, string, erro
 		u.Facts = u.Facts[:nf] // evaluation must not add hypotheses
 		terms = append(terms, t)
 	}
-	q := u.Query(o) + "(check-sat)\n(get-value (" + strings.Join(terms, " ") + "))\n"
+	base := u.Query(o)
+	if o.Status != "sat" {
+		base = u.CandidateQuery(o)
+	}
+	q := base + "(check-sat)\n(get-value (" + strings.Join(terms, " ") + "))\n"
 	dir, err := os.MkdirTemp("", "kvr")
 	if err != nil {
 		return nil, "", err
